@@ -528,7 +528,7 @@ func Generate(r *rand.Rand, profile string) *Scenario {
 			sc.Pods = append(sc.Pods, Pod{Name: fmt.Sprintf("orphan%d-p1", x+1), Job: len(sc.Jobs), Cpu: 100, Mem: 100, Gpu: pick(0, 1), Phase: "P"})
 		}
 	}
-	if profile == "fifo" && chance(0.35) {
+	if profile == "fifo" && chance(0.5) {
 		// an older, partially running multi-sub-group job of the same leaf queue and priority as the
 		// comparable jobs: its leader is pending (e.g. recreated) while its workers run above their
 		// minimum. Its position in the job order must not disturb the order among the comparable jobs.
